@@ -34,6 +34,8 @@ type API interface {
 	ErrClass(err error) string
 	Supports(fn int) bool
 	Reset()
+	// SetDefaults assigns the package-level defaults (done between runs only, never while calls are in flight).
+	SetDefaults(limit int64, negOff bool)
 }
 
 // ---------------------------------------------------------------------------
@@ -45,6 +47,11 @@ func (v5API) Supports(fn int) bool { return true }
 func (v5API) Reset() {
 	v5.SimReset()
 	v5json.SimReset()
+}
+
+func (v5API) SetDefaults(limit int64, negOff bool) {
+	v5.AccumulatedCopySizeLimit = limit
+	v5.SupportNegativeIndices = !negOff
 }
 
 func (v5API) DecodePatch(b []byte) (any, error) {
@@ -191,6 +198,11 @@ func (legacyAPI) Supports(fn int) bool {
 	return fn != FnApplyWithOptions && fn != FnApplyIndentWithOptions
 }
 func (legacyAPI) Reset() { legacy.SimReset() }
+
+func (legacyAPI) SetDefaults(limit int64, negOff bool) {
+	legacy.AccumulatedCopySizeLimit = limit
+	legacy.SupportNegativeIndices = !negOff
+}
 
 func (legacyAPI) DecodePatch(b []byte) (any, error) {
 	p, err := legacy.DecodePatch(b)
